@@ -27,7 +27,82 @@ const (
 	KS
 	KC
 	KA
+	KSX  // operand element at a computed position (templates for large tensors, spec/Big.tla)
+	KBS  // sum / max / min of Body over Var = Lo..Hi
+	KLet // shared sub-value
+	KRV  // reference to a shared sub-value
 )
+
+// Ix is an integer index expression of a template.
+type Ix struct {
+	Op   string // "il", "iv", "+", "*", "/", "%"
+	N    int
+	Var  string
+	A, B *Ix
+}
+
+func (e *Ix) UnmarshalJSON(b []byte) error {
+	var raw []json.RawMessage
+	if err := json.Unmarshal(b, &raw); err != nil {
+		return err
+	}
+	var head string
+	if err := json.Unmarshal(raw[0], &head); err != nil {
+		return err
+	}
+	switch head {
+	case "il":
+		e.Op = "il"
+		return json.Unmarshal(raw[1], &e.N)
+	case "iv":
+		e.Op = "iv"
+		return json.Unmarshal(raw[1], &e.Var)
+	case "io":
+		if err := json.Unmarshal(raw[1], &e.Op); err != nil {
+			return err
+		}
+		e.A, e.B = new(Ix), new(Ix)
+		if err := json.Unmarshal(raw[2], e.A); err != nil {
+			return err
+		}
+		return json.Unmarshal(raw[3], e.B)
+	}
+	return fmt.Errorf("index expression: unknown head %q", head)
+}
+
+func (e *Ix) MarshalJSON() ([]byte, error) {
+	switch e.Op {
+	case "il":
+		return json.Marshal([]any{"il", e.N})
+	case "iv":
+		return json.Marshal([]any{"iv", e.Var})
+	}
+	return json.Marshal([]any{"io", e.Op, e.A, e.B})
+}
+
+func (e *Ix) eval(b *Bind) int {
+	switch e.Op {
+	case "il":
+		return e.N
+	case "iv":
+		return b.I[e.Var]
+	case "+":
+		return e.A.eval(b) + e.B.eval(b)
+	case "*":
+		return e.A.eval(b) * e.B.eval(b)
+	case "/":
+		return e.A.eval(b) / e.B.eval(b)
+	case "%":
+		return e.A.eval(b) % e.B.eval(b)
+	}
+	panic("term: index op " + e.Op)
+}
+
+// Bind holds the bound index variables and shared sub-values while a template is evaluated.
+type Bind struct {
+	I map[string]int
+	R map[string]Res
+}
 
 type T struct {
 	K    Kind
@@ -36,6 +111,11 @@ type T struct {
 	Name string  // KS: tensor name, KC: constant name, KA: function
 	I    int     // KS: 1-based element
 	Args []*T
+	Ix     *Ix    // KSX
+	Var    string // KBS, KLet, KRV
+	Lo, Hi int    // KBS
+	Body   *T     // KBS, KLet
+	Val    *T     // KLet
 }
 
 const (
@@ -84,6 +164,34 @@ func (t *T) UnmarshalJSON(b []byte) error {
 		if err := json.Unmarshal(raw[1], &t.Name); err != nil {
 			return err
 		}
+	case "sx":
+		t.K = KSX
+		if err := json.Unmarshal(raw[1], &t.Name); err != nil {
+			return err
+		}
+		t.Ix = new(Ix)
+		return json.Unmarshal(raw[2], t.Ix)
+	case "bs":
+		t.K = KBS
+		if err := json.Unmarshal(raw[1], &t.Name); err != nil {
+			return err
+		}
+		json.Unmarshal(raw[2], &t.Var)
+		json.Unmarshal(raw[3], &t.Lo)
+		json.Unmarshal(raw[4], &t.Hi)
+		t.Body = new(T)
+		return json.Unmarshal(raw[5], t.Body)
+	case "let":
+		t.K = KLet
+		json.Unmarshal(raw[1], &t.Var)
+		t.Val, t.Body = new(T), new(T)
+		if err := json.Unmarshal(raw[2], t.Val); err != nil {
+			return err
+		}
+		return json.Unmarshal(raw[3], t.Body)
+	case "rv":
+		t.K = KRV
+		return json.Unmarshal(raw[1], &t.Var)
 	default:
 		t.K = KA
 		t.Name = head
@@ -106,6 +214,14 @@ func (t *T) MarshalJSON() ([]byte, error) {
 		return json.Marshal([]any{"s", t.Name, t.I})
 	case KC:
 		return json.Marshal([]any{"c", t.Name})
+	case KSX:
+		return json.Marshal([]any{"sx", t.Name, t.Ix})
+	case KBS:
+		return json.Marshal([]any{"bs", t.Name, t.Var, t.Lo, t.Hi, t.Body})
+	case KLet:
+		return json.Marshal([]any{"let", t.Var, t.Val, t.Body})
+	case KRV:
+		return json.Marshal([]any{"rv", t.Var})
 	}
 	out := make([]any, 0, len(t.Args)+1)
 	out = append(out, t.Name)
@@ -132,7 +248,55 @@ const u = 1.1102230246251565e-16 // unit roundoff 2^-53
 // Mode selects the one-sided derivative at exact ties of max / min:
 // +1 = the differentiation variable moves up, -1 = down.
 func (t *T) Eval(env Env, mode int) Res {
+	return t.EvalAt(env, mode, &Bind{I: map[string]int{}, R: map[string]Res{}})
+}
+
+// EvalAt evaluates a template with bound index variables (the output position "p", summation variables).
+func (t *T) EvalAt(env Env, mode int, b *Bind) Res {
 	switch t.K {
+	case KSX:
+		return Res{V: env[t.Name][t.Ix.eval(b)]}
+	case KRV:
+		return b.R[t.Var]
+	case KLet:
+		v := t.Val.EvalAt(env, mode, b)
+		nb := &Bind{I: b.I, R: map[string]Res{}}
+		for k, x := range b.R {
+			nb.R[k] = x
+		}
+		nb.R[t.Var] = v
+		return t.Body.EvalAt(env, mode, nb)
+	case KBS:
+		nb := &Bind{I: map[string]int{}, R: b.R}
+		for k, x := range b.I {
+			nb.I[k] = x
+		}
+		var acc Res
+		mag := 0.0
+		unstable := false
+		for q := t.Lo; q <= t.Hi; q++ {
+			nb.I[t.Var] = q
+			r := t.Body.EvalAt(env, mode, nb)
+			unstable = unstable || r.Unstable
+			switch {
+			case q == t.Lo && t.Name != "sum":
+				acc = r
+			case t.Name == "sum":
+				acc.V += r.V
+				mag += abs(r.V)
+				acc.E += r.E
+			case t.Name == "max":
+				acc = Res{V: math.Max(acc.V, r.V), E: math.Max(acc.E, r.E)}
+			case t.Name == "min":
+				acc = Res{V: math.Min(acc.V, r.V), E: math.Max(acc.E, r.E)}
+			}
+		}
+		if t.Name == "sum" {
+			// any summation order of n terms: at most (n-1) roundings of partial sums bounded by the magnitude
+			acc.E += float64(t.Hi-t.Lo+1) * u * mag
+		}
+		acc.Unstable = unstable
+		return acc
 	case KQ:
 		e := 0.0
 		if t.D != 1 {
@@ -157,7 +321,7 @@ func (t *T) Eval(env Env, mode int) Res {
 			a[i] = Res{V: x.V}
 			continue
 		}
-		a[i] = x.Eval(env, mode)
+		a[i] = x.EvalAt(env, mode, b)
 		unstable = unstable || a[i].Unstable
 	}
 	r := apply(t.Name, a, mode)
@@ -311,14 +475,7 @@ type Interval struct {
 
 // Allowed evaluates both one-sided readings and returns their hull.
 func (t *T) Allowed(env Env) Interval {
-	p := t.Eval(env, +1)
-	m := t.Eval(env, -1)
-	return Interval{
-		Lo:       math.Min(p.V, m.V),
-		Hi:       math.Max(p.V, m.V),
-		E:        math.Max(p.E, m.E),
-		Unstable: p.Unstable || m.Unstable,
-	}
+	return t.AllowedAt(env, 0)
 }
 
 // K is the safety factor applied to the first-order error bound.
@@ -369,4 +526,12 @@ func (t *T) HasFn(f string) bool {
 		}
 	}
 	return false
+}
+
+// AllowedAt is Allowed for a template at output position p.
+func (t *T) AllowedAt(env Env, p int) Interval {
+	b := &Bind{I: map[string]int{"p": p}, R: map[string]Res{}}
+	pl := t.EvalAt(env, +1, b)
+	mi := t.EvalAt(env, -1, b)
+	return Interval{Lo: math.Min(pl.V, mi.V), Hi: math.Max(pl.V, mi.V), E: math.Max(pl.E, mi.E), Unstable: pl.Unstable || mi.Unstable}
 }
